@@ -103,7 +103,9 @@ deriving Repr
 def Views.inputs {V α : Type} (w : Views V α) : List (List α × V) :=
   (w.vertex, w.vertexIndex) :: (w.normal.toList ++ w.texcoords)
 
-/-- one texcoord set of `__getitem__`'s loop `for j, uvindex in enumerate(self._texcoord_indexset)` -/
+/-- one input of `__getitem__`: `idx = sel view i` (the index entries of item `i`) and
+    `data[idx]`; used for the vertex input, the normal input when there is one, and in the loop
+    `for j, uvindex in enumerate(self._texcoord_indexset)` -/
 def texItem {V α : Type} (sel : V → Int → Option (List Nat)) (i : Int) (t : List α × V) :
     Option (List Nat × List α) :=
   match sel t.2 i with
@@ -114,27 +116,22 @@ def texItem {V α : Type} (sel : V → Int → Option (List Nat)) (i : Int) (t :
     | some tv => some (ti, tv)
 
 /-- `__getitem__` of all six classes; `sel view i` is the class-specific way of reading the index
-    entries of item `i` out of one view (`view[i]` or `view[polystarts[i]:polyends[i]]`) -/
+    entries of item `i` out of one view (`view[i]` or `view[polystarts[i]:polyends[i]]`).
+    Vertex, then normal (`None, None` when the primitive has no normal array), then every texcoord
+    set; an `IndexError` in any of them is the result. -/
 def getItemWith {V α μ : Type} (sel : V → Int → Option (List Nat)) (w : Views V α) (mat : μ)
     (i : Int) : Option (Item α μ) :=
-  match sel w.vertexIndex i with
-  | none => none
-  | some vi =>
-    match gather w.vertex vi with
-    | none => none
-    | some v =>
-      match (match w.normal with
-             | none => some none
-             | some nd => (texItem sel i nd).map some) with
-      | none => none
-      | some n =>
-        match traverse (texItem sel i) w.texcoords with
-        | none => none
-        | some ts =>
-          some { indices := vi, vertices := v,
-                 normalIndices := n.map (·.1), normals := n.map (·.2),
-                 texcoordIndices := ts.map (·.1), texcoords := ts.map (·.2),
-                 material := mat }
+  match texItem sel i (w.vertex, w.vertexIndex),
+        (match w.normal with
+         | none => some none
+         | some nd => (texItem sel i nd).map some),
+        traverse (texItem sel i) w.texcoords with
+  | some v, some n, some ts =>
+    some { indices := v.1, vertices := v.2,
+           normalIndices := n.map (·.1), normals := n.map (·.2),
+           texcoordIndices := ts.map (·.1), texcoords := ts.map (·.2),
+           material := mat }
+  | _, _, _ => none
 
 /-- `list(prim)`: the legacy protocol over `__getitem__`, with `n + 1` calls allowed
     (`Props.C10.iterate_fuel_independent`: any larger allowance gives the same list and the
